@@ -215,19 +215,18 @@ def explicit_decodes(enc, out):
     return obs
 
 
-def _group_forms(failing, executed):
-    """failing: {kind: {form: (expected, observed, tb)}} -> list of (kind, form label, expected, observed, tb).
-    When every executed form fails the same way the case gets ONE failure with form='all'."""
+def _group_forms(failing, executed, returned):
+    """failing: {kind: {form: (expected, observed, tb)}} -> list of (kind, form label, expected, observed, tb):
+    ONE failure per (case, kind).  The label says through which of the case's input forms (layouts) the clause
+    is violated: 'all' when every one that the clause applies to is (for 'rejects-...' every executed form, for
+    the clauses about a returned value every form that returned one), else their names joined with '+'."""
     out = []
     for kind in sorted(failing):
         d = failing[kind]
-        if len(d) == len(executed):
-            f0 = executed[0]
-            out.append((kind, 'all', d[f0][0], {f: d[f][1] for f in executed}, d[f0][2]))
-        else:
-            for f in executed:
-                if f in d:
-                    out.append((kind, f, d[f][0], d[f][1], d[f][2]))
+        base = executed if kind == 'rejects-text-over-alphabet' else returned
+        bad = [f for f in executed if f in d]
+        label = 'all' if len(bad) == len(base) else '+'.join(bad)
+        out.append((kind, label, d[bad[0]][0], {f: d[f][1] for f in bad}, d[bad[0]][2]))
     return out
 
 
@@ -243,6 +242,7 @@ def check_encode(res, case):
     res.planned += 1
     failing = {}
     accepted = 0
+    returned = []
     exc_names = set()
     for form in forms:
         res.transitions += 1
@@ -255,6 +255,7 @@ def check_encode(res, case):
                     {'decodes_to': model['rows']}, 'raises ' + exc_name(e) + ': ' + str(e)[:160], tb_string(e))
             continue
         accepted += 1
+        returned.append(form)
         first = observe_rows(out)
         if not model['ok']:
             failing.setdefault('accepts-character-outside-alphabet', {})[form] = (
@@ -291,14 +292,17 @@ def check_encode(res, case):
     if not any(x.get('part') == 'encode' for x in res.samples):
         res.sample({'part': 'encode', 'alphabet': name, 'rows': rows, 'forms': forms, 'model':
                     'accept -> %r' % (model['rows'],) if model['ok'] else 'reject %r' % (model['offending'],)})
-    for kind, form, exp, obs, tb in _group_forms(failing, forms):
+    for kind, form, exp, obs, tb in _group_forms(failing, forms, returned):
         if kind == 'accepts-character-outside-alphabet':
             cls = model['offending']['class']
         else:
             cls = label
-        feats = {'char_class': cls, 'form': form}
         if kind == 'decoded-text-differs-from-uppercased-original':
-            feats['rows'] = 'multi' if len(rows) > 1 else 'single'
+            # the clause is about upper-casing and about rows: those are the relevant facts of the case
+            feats = {'form': form, 'rows': 'multi' if len(rows) > 1 else 'single',
+                     'has_lower_case': 'lower_of_letter' in model['classes']}
+        else:
+            feats = {'char_class': cls, 'form': form}
         res.fail(kind, case, feats, expected=exp, observed=obs, tb=tb)
         res.extra['failing_cases[%s|%s]' % (kind, name)] += 1
 
@@ -376,6 +380,7 @@ def check_retarget(res, case, cache=None):
     executed = [s[0] for s in sources]
     for api, fn in APIS:
         failing = {}
+        returned = []
         summary = set()
         for entry in sources:
             lname, rows, x, snap, layout = entry
@@ -393,6 +398,7 @@ def check_retarget(res, case, cache=None):
                 entry[3] = _snapshot(entry[2])
             if out is None:
                 continue
+            returned.append(lname)
             ob = observe_rows(out)
             if ob == ('rows', rows):
                 summary.add('same-text')
@@ -410,8 +416,8 @@ def check_retarget(res, case, cache=None):
         res.outcome('retarget:%s:->%s:code-vs-prefix[%s]:text-vs-target[%s]:%s' % (
             api, 'ascii' if tgt == 'ascii' else 'alphabet', facts['max_code_vs_common_prefix'],
             facts['text_vs_target'], '+'.join(sorted(summary)) or 'no-source'))
-        for kind, lname, exp, obs, tb in _group_forms(failing, executed):
-            container = lname if lname == 'all' else lname.split('[')[0]
+        for kind, lname, exp, obs, tb in _group_forms(failing, executed, returned):
+            container = lname if lname == 'all' else '+'.join(sorted({x.split('[')[0] for x in lname.split('+')}))
             feats = {'api': api, 'container': container}
             if api in ('as_encoded_array', 'target.encode'):
                 # mechanism: codes are re-used when the alphabets agree on a prefix -> the relevant fact is where
@@ -469,6 +475,7 @@ def check_numeric(res, case):
     forms = [n for n, k, _ in NUMERIC_FORMS if k == 'any' or len(rows) == 1]
     funcs = {n: f for n, _, f in NUMERIC_FORMS}
     failing = {}
+    returned = []
     summary = set()
     for form in forms:
         res.transitions += 1
@@ -480,6 +487,7 @@ def check_numeric(res, case):
             res.raising += 1
             summary.add('raises:' + exc_name(e))
             continue
+        returned.append(form)
         ob = observe_numeric_text(dec)
         if ob[0] == 'rows' and [A.upper(r) for r in ob[1]] == [A.upper(r) for r in rows]:
             summary.add('same-text' if ob[1] == rows else 'same-text-up-to-case')
@@ -498,7 +506,7 @@ def check_numeric(res, case):
     res.outcome('numeric:%s:%s' % ('multi-row' if len(rows) > 1 else 'single-row', '+'.join(sorted(summary))))
     if not any(x.get('part') == 'numeric' for x in res.samples):
         res.sample({'part': 'numeric', 'encoding': name, 'rows': rows, 'forms': forms})
-    for kind, form, exp, obs, tb in _group_forms(failing, forms):
+    for kind, form, exp, obs, tb in _group_forms(failing, forms, returned):
         res.fail(kind, case, {'encoding': name, 'form': form}, expected=exp, observed=obs, tb=tb)
 
 
